@@ -67,8 +67,15 @@ def enc(fr):
     return [fr.numerator, fr.denominator]
 
 
+UNLIFTABLE = [1, 0]     # finite, but not a small rational: predicates touching it are "undecided"
+NOT_FINITE = [0, 0]     # nan / inf: NaR proper, every predicate touching it is FALSE
+
+
 def lift_enc(x, **kw):
-    return enc(lift(x, **kw))
+    fr = lift(x, **kw)
+    if fr is None:
+        return list(NOT_FINITE) if not math.isfinite(float(x)) else list(UNLIFTABLE)
+    return enc(fr)
 
 
 def lift_array(a, **kw):
@@ -78,10 +85,10 @@ def lift_array(a, **kw):
     bad = 0
     flat = []
     for x in a.ravel():
-        fr = lift(x, **kw)
-        if fr is None:
+        e = lift_enc(x, **kw)
+        if e[1] == 0:
             bad += 1
-        flat.append(enc(fr))
+        flat.append(e)
     def build(shape, it):
         if len(shape) == 0:
             return next(it)
